@@ -81,6 +81,13 @@ def load(path: Union[str, DDSPath, pathlib.Path]) -> Any:
             )
     else:
         key = _store().fetch_paths([path_]).get(path_)
+        if key is not None and not _store().has_blob(key):
+            # The path is committed but its blob is not in this store (for instance a data directory
+            # that was populated with another internal directory): there is no value to return.
+            raise DDSException(
+                f"Requested to load path {path_}: it refers to the key {key}, "
+                f"which is not in the store {_store()}"
+            )
     if key is None:
         raise DDSException(f"The store {_store()} did not return path {path_}")
     else:
